@@ -141,9 +141,9 @@ EXPORT errno_t _wcsrtombs_s_chk(size_t *restrict retvalp, char *restrict dest,
     size_t l;
     errno_t rc;
 
-    CHK_SRC_NULL("wcsrtombs_s", retvalp)
+    CHK_ARG_NULL_TERM("wcsrtombs_s", retvalp, RSIZE_MAX_STR, char)
     *retvalp = 0;
-    CHK_SRC_NULL("wcsrtombs_s", ps)
+    CHK_ARG_NULL_TERM("wcsrtombs_s", ps, RSIZE_MAX_STR, char)
 
     /* GLIBC asserts with len=0 and wrong state. darwin and musl is fine.
        wine returns 0 early. */
